@@ -1,5 +1,5 @@
 (* C18 — metrics account for every cache event exactly once. Statements only. *)
-From Cache Require Import Base Backend MetricsProofs.
+From Cache Require Import Base Backend MetricsProofs Failover FailoverProofs.
 
 (* Backends, any hash, any configuration, any operation sequence from any state:
    cache_hit + cache_miss + cache_expired = non-skipped reads + entries touched by ExpireAll;
@@ -20,6 +20,27 @@ Theorem C18_backend_step : forall hash c s o s' r ev,
   mtotal MBuild ev = 0 /\ mtotal MFailed ev = 0 /\ mtotal MRefreshed ev = 0.
 Proof. exact step_metrics. Qed.
 Print Assumptions C18_backend_step.
+
+(* Failover frontend with a stats tracker: in every reachable state the number of cache_build events
+   plus the builds still between invocation and their (deferred) stat equals the number of builder
+   invocations; likewise cache_failed vs failed builds, cache_refreshed vs stale re-stores. *)
+Theorem C18_failover_builds_counted : forall fe nilb c ls s,
+  f_stat c = true -> frun fe nilb c f0 ls = Some s ->
+  cntb is_bstart (omap bproj (flog s)) - cntb (is_bstat MBuild) (omap bproj (flog s))
+  = wthreads (fun _ p => b2z (in_build_region p)) s.
+Proof. exact builds_counted. Qed.
+Print Assumptions C18_failover_builds_counted.
+
+(* hence at quiescence, under every interleaving and every builder script, the totals are exact:
+   no event is dropped or counted twice *)
+Theorem C18_failover_totals : forall fe nilb c ls s,
+  f_stat c = true -> frun fe nilb c f0 ls = Some s -> all_done s ->
+  let l := omap bproj (flog s) in
+  cntb (is_bstat MBuild) l = cntb is_bstart l /\
+  cntb (is_bstat MFailed) l = cntb is_bfail l /\
+  cntb (is_bstat MRefreshed) l = cntb is_brefresh l.
+Proof. exact failover_totals. Qed.
+Print Assumptions C18_failover_totals.
 
 Example C18_nonvacuous :
   let hash := fun k : key => match k with [] => 0%N | b :: _ => (b + 1)%N end in
